@@ -55,6 +55,9 @@ def check_c02(pid, tier, t0, replay_key):
     f12, o12 = e1.rule_r12(E)
     findings += f12
     obl += o12
+    f14, o14 = e1.rule_r14(E)
+    findings += f14
+    obl += o14
     configs = ["default"]
     if tier == "thorough":
         # second build configuration: sequential scope (no rayon) changes Workload::exec's MIR
@@ -103,7 +106,9 @@ def check_c02(pid, tier, t0, replay_key):
         "(R7) the worker closure decrements counters only after the job ran, only on success and never after sending the completion, in every "
         "build configuration analysed; (R8) main-thread reads in handle_success are ordered after every writer of the slot; (R8b) other "
         "main-thread touches happen after Workload::exec returned; (R9) a slot read with the panicking get() is written on every Ok path of "
-        "its producer; (R12) AnyAccess::to_fe/to_be hand each context view the same access kind the job declared. Not decided: instance-level ordering inside multi-instance variants (audited exceptions with re-checked witnesses), "
+        "its producer; (R12) AnyAccess::to_fe/to_be hand each context view the same access kind the job declared; (R14) an id that is "
+        "completed without running its job is recorded and re-opened by handle_success when its subject comes back (a non-exported '.notdef' replaced by the "
+        "synthesized one used to fail with 'GvarFragment(.notdef) is not available'; repaired). Not decided: instance-level ordering inside multi-instance variants (audited exceptions with re-checked witnesses), "
         "counter arithmetic ('completed twice'), correctness of crossbeam/rayon/parking_lot.")
     rule_text = ("one obligation per rule instance (job x slot x writer, job x dynamic job x trigger, rewrite site, producer x reader, ...); "
                  "distinct = distinct instance strings; every instance enumerated from the current tree is evaluated (no sampling)")
